@@ -195,11 +195,21 @@ def run_case(case, ctx):
             elif size is not None and expl != any('GEX fallback mechanism was triggered' in t for t in note_txt) and not any(o in ('-j',) for o in case['opts']):
                 out.append(viol('C12 explanatory OpenSSH-fallback note %s' % ('missing' if expl else 'shown without cause'), 'alg=%s size=%r notes=%r' % (alg, size, note_txt)))
         else:
+            # under faults a probe may be lost, but what is reported is either nothing or the smallest modulus whose group message
+            # reached the tool intact ("no size rather than a wrong one"); for an OpenSSH server whose first pass ends at 2048 it is
+            # the answer of the follow-up probe, when that was delivered
+            first_ok = [r['answer'] for r in reqs if r['answer'] is not None and r['delivered'] and (r['min'], r['n'], r['max']) != (2048, 3072, 4096)]
+            follow_ok = [r['answer'] for r in reqs if r['answer'] is not None and r['delivered'] and (r['min'], r['n'], r['max']) == (2048, 3072, 4096)]
+            exp = min(first_ok) if first_ok else None
+            accept = {None, exp}
+            if openssh and exp == 2048:
+                accept = {None} | set(follow_ok)
             if size is not None and size not in handed:
                 out.append(viol('C12 faulty probe phase: reported a size the server never handed out', 'alg=%s reported=%r handed=%r faults=%r' % (alg, size, handed, case['faults'])))
-            elif size == 2048 and openssh and not any((r['min'], r['n'], r['max']) == (2048, 3072, 4096) and r['answer'] == 2048 and r['delivered'] for r in reqs):
-                out.append(viol('C12 OpenSSH fallback size 2048 reported although the follow-up 2048-4096 probe did not confirm it', 'alg=%s requests/answers=%r faults=%r' % (
-                    alg, [((r['min'], r['n'], r['max']), r['answer'], r['delivered']) for r in reqs], case['faults'])))
+            elif size not in accept:
+                out.append(viol('C12 faulty probe phase: reported size is not the smallest modulus handed out (%s)' % ('openssh' if openssh else 'other'),
+                                'alg=%s reported=%r, smallest handed out %r (follow-up: %r)\nrequests/answers/delivered=%r\nfaults=%r' % (
+                                    alg, size, exp, follow_ok, [((r['min'], r['n'], r['max']), r['answer'], r['delivered']) for r in reqs], case['faults'])))
         # notes by threshold (levels of the notes beyond the static database entry; wording is not judged)
         extra = extra_levels('kex', alg, notes) or []
         if size is not None:
